@@ -1,0 +1,37 @@
+//! Verification hooks (only compiled with the `verif_hooks` cargo feature): a thread-local
+//! recorder of every source read and of every match-attempt start / restart, so that an external
+//! harness can check that a match attempt reads the source left to right.
+use std::cell::RefCell;
+use std::vec::Vec;
+
+/// One recorded event.
+#[derive(Debug, Clone, Copy, PartialEq, Eq)]
+pub enum Event {
+    /// `Iterator::next` was called; the attempt starts at this offset.
+    Next(usize),
+    /// A skip restarted matching at this offset.
+    Restart(usize),
+    /// `read::<Chunk>(offset)` with `Chunk::SIZE` bytes.
+    Read(usize, usize),
+}
+
+thread_local! { static LOG: RefCell<Option<Vec<Event>>> = const { RefCell::new(None) }; }
+
+/// Start recording (clears any previous log).
+pub fn start() {
+    LOG.with(|l| *l.borrow_mut() = Some(Vec::new()));
+}
+
+/// Stop recording and return the log.
+pub fn stop() -> Vec<Event> {
+    LOG.with(|l| l.borrow_mut().take().unwrap_or_default())
+}
+
+#[inline]
+pub(crate) fn record(e: Event) {
+    LOG.with(|l| {
+        if let Some(log) = l.borrow_mut().as_mut() {
+            log.push(e);
+        }
+    });
+}
